@@ -743,6 +743,42 @@ func c18CheckSource(c *rt.C, path, src, class string) {
 			c.Event("codec_roundtrips_ok")
 		}
 	}
+	// --- one codec (one Reflector), the same file linked twice: equal names, distinct descriptor instances -----------
+	// (what a long-lived process sees when it reloads an image; nothing kept per type name may hold on to descriptors
+	// of the first instance)
+	if ct2, err2 := compileProtoText(map[string]string{path: src}); err2 == nil {
+		cd := j5codec.NewCodec(j5codec.WithResolver(ct.Types))
+		for _, md := range msgs {
+			md2 := ct2.message(string(md.FullName()))
+			if md2 == nil {
+				continue
+			}
+			mdet := cloneDet(det, "message", string(md.FullName()))
+			var firstErr error
+			for inst, d := range []protoreflect.MessageDescriptor{md, md2, md} {
+				m := genericMessage(rand.New(rand.NewSource(int64(len(md.FullName())))), d, 0)
+				var b []byte
+				var eerr error
+				ok, pv, fn, st := rt.Guard(func() {
+					b, eerr = cd.ProtoToJSON(m)
+					if eerr == nil {
+						eerr = cd.JSONToProto(b, dynamicpb.NewMessage(d))
+					}
+				})
+				c.Event("second_instance_calls")
+				if !ok {
+					c.Violate("second-instance-panic/"+fn, fmt.Sprintf("encode/decode of %s panicked on descriptor instance %d of the same file on one codec: %v", md.FullName(), inst+1, pv), cloneDet(mdet, "stack", st))
+					break
+				}
+				if inst == 0 {
+					firstErr = eerr
+				} else if (eerr == nil) != (firstErr == nil) {
+					c.Violate("second-instance-differs", fmt.Sprintf("%s: instance 1 of the descriptor gave error %v, instance %d of the same file on the same codec gave %v", md.FullName(), firstErr, inst+1, eerr), mdet)
+					break
+				}
+			}
+		}
+	}
 	c18SharedCache(c, msgs, det)
 	if c.WantSample() {
 		c.Sample(map[string]any{"class": class, "proto": rt.Clip(src[strings.Index(src, "decimal.proto\";")+16:], 900)})
@@ -941,6 +977,9 @@ message Other { string name = 1; }
 		"flatten-chain-3":                 "message A { B b = 1 [(j5.ext.v1.field).message.flatten = true]; }\nmessage B { C c = 1 [(j5.ext.v1.field).message.flatten = true]; }\nmessage C { D d = 1 [(j5.ext.v1.field).message.flatten = true]; string c_name = 2; }\nmessage D { string d_name = 1; optional int32 d_count = 2; }",
 		"flatten-chain-oneof":             "message A { B b = 1 [(j5.ext.v1.field).object.flatten = true]; }\nmessage B { C c = 1 [(j5.ext.v1.field).object.flatten = true]; }\nmessage C { oneof pick { option (j5.ext.v1.oneof).expose = true; string s = 1; int64 i = 2; } string name = 3; }",
 		"flatten-chain-item":              "message A { repeated B bs = 1; map<string, B> by_name = 2; }\nmessage B { C c = 1 [(j5.ext.v1.field).object.flatten = true]; }\nmessage C { D d = 1 [(j5.ext.v1.field).object.flatten = true]; string c_name = 2; }\nmessage D { string d_name = 1; }",
+		"plain-then-flatten-mutual":       "message A { B b = 1; B b2 = 2 [(j5.ext.v1.field).message.flatten = true]; }\nmessage B { A a = 1 [(j5.ext.v1.field).message.flatten = true]; string x = 2; }",
+		"plain-then-flatten-nested":       "message Outer { message A { B b = 1; B b2 = 2 [(j5.ext.v1.field).object.flatten = true]; } message B { A a = 1 [(j5.ext.v1.field).object.flatten = true]; string x = 2; } A a = 1; }",
+		"self-flatten-nested":             "message Outer { message Node { Node next = 1 [(j5.ext.v1.field).message.flatten = true]; string x = 2; } Node node = 1; }",
 		"deep-nesting":                    "message A { message B { message C { message D { string s = 1; } D d = 1; } C c = 1; } B b = 1; }",
 	}
 	for _, name := range rt.SortedKeys(recShapes) {
